@@ -61,6 +61,19 @@ Q = {
 }
 
 
+def _chain(n):
+    import cotengra as ctg
+
+    syms = [ctg.get_symbol(i) for i in range(n + 1)]
+    return tuple((syms[i], syms[i + 1]) for i in range(n)), \
+        (syms[0], syms[n])
+
+
+# a contraction whose stored entry is larger than one I/O buffer (8 KiB), so
+# that the writer issues several write() calls
+Q["L"] = _chain(1400)
+
+
 def sizes(tag, k):
     inputs, output = Q[tag]
     inds = list(dict.fromkeys(ix for t in inputs for ix in t))
@@ -156,12 +169,18 @@ def scenarios():
         ("cache-hit-reader",
          [("ReusableHyperOptimizer", hk, "A", sizes("A", 0))],
          ("ReusableHyperOptimizer", hk, "A", sizes("A", 0), {}), True),
+        ("large-entry-several-writes",
+         [("ReusableHyperOptimizer", hk, "A", sizes("A", 0))],
+         ("ReusableHyperOptimizer", hk, "L", sizes("L", 0), {}), True),
     ]
     return out
 
 
 def units(tier, seed):
-    return [(i, tier, seed) for i in range(len(scenarios()))]
+    n = len(scenarios())
+    if tier == "quick":
+        n -= 1  # the large-entry scenario (~10^4 crash states) is thorough
+    return [(i, tier, seed) for i in range(n)]
 
 
 def norm_digest(d):
@@ -300,7 +319,10 @@ def work(unit):
                           {"scenario": name}, effects)
             return res
 
-        states = list(crashfs.crash_states(effects))
+        big = name.startswith("large-entry")
+        # large entries (several write syscalls): every 61st byte offset plus
+        # the 16 first/last of each write; all other scenarios: every offset
+        states = list(crashfs.crash_states(effects, stride=61 if big else 1))
         n_sub = 0
         for si, (label, prefix) in enumerate(states):
             crashfs.materialise(pre_dir, prefix, final_dir, st)
@@ -321,7 +343,7 @@ def work(unit):
                      "effects_applied": prefix[-4:], "all_effects": effects},
                     bad[:3], max_per_unit=2)
             # real fresh subprocess reader on every 8th state + boundaries
-            if si % 8 == 0 or label.startswith("after-"):
+            if si % (64 if big else 8) == 0 or label.startswith("after-"):
                 crashfs.materialise(pre_dir, prefix, final_dir, st)
                 rkw = {k: v for k, v in kw.items()
                        if k not in ("overwrite", "directory_split")}
